@@ -182,6 +182,17 @@ func (p *Prog) isConstBool(e ast.Expr, v bool) bool {
 
 // callsIn lists calls to names inside fn (including nested literals), in source order.
 func (p *Prog) callsIn(fn *Func, names ...string) []*ast.CallExpr {
+	out := p.callsInShallow(fn, names...)
+	if fn != nil {
+		// extracted blocks (private helpers with a sole call site in fn) are part of fn
+		for _, h := range p.HelpersOf(fn) {
+			out = append(out, p.callsInShallow(h, names...)...)
+		}
+	}
+	return out
+}
+
+func (p *Prog) callsInShallow(fn *Func, names ...string) []*ast.CallExpr {
 	var out []*ast.CallExpr
 	if fn == nil || fn.Decl.Body == nil {
 		return nil
@@ -212,6 +223,10 @@ func (c *Ctx) whoMayCall(rule, callee string, floor int, allowed map[string]stri
 	sites := p.CallSites(fn.Obj)
 	for _, cs := range sites {
 		_, ok := allowed[cs.Caller.Name]
+		if !ok {
+			// an extracted block of an allowed caller (private helper with that sole call site) is part of it
+			_, ok = allowed[p.HelperRoot(cs.Caller).Name]
+		}
 		c.Check(rule, "call "+callee+" from "+cs.Caller.Name, cs.Call, ok,
 			"%s may only be called from %v; called from %s", callee, keys(allowed), cs.Caller.Name)
 	}
